@@ -362,6 +362,15 @@ func opSpawn(g *G) (interface{}, []uint64, int, interface{}) {
 		unsortGenome(g, start)
 		origin += "/unsorted"
 	}
+	if len(start.ControlGenes) == 0 && g.chance(0.15) {
+		// a modular start genome (1-2 modules, enabled or not, listed last): the counters start above the modules'
+		// control-node ids and innovation numbers too
+		start = cloneGenome(start)
+		for k := 1 + g.intn(2); k > 0; k-- {
+			addModule(g, start, g.chance(0.5), false)
+		}
+		origin += "/modular"
+	}
 	before := dumpGenome(start)
 	var pop *genetics.Population
 	var err error
